@@ -29,7 +29,7 @@ class PumlLeg(R.RenderLeg):
     thorough_n = 5000
 
     def queries_for(self, rng, u):
-        return [["PUML", u, ci] for ci in range(4)]
+        return [["PUML", u, ci] for ci in range(5)] + [["PUML", u, 1, "grow_from", 4]]
 
     def phase_oracle(self, case, obs):
         if not obs["unchanged"]:
